@@ -354,6 +354,14 @@ func run(t *testing.T, tape *simrt.Tape) *hx.Outcome {
 				return out
 			}
 			l.desc.MediaType = ocispec.MediaTypeImageLayerGzip
+			// the manifest of a converted image carries the annotations of that conversion
+			l.desc.Annotations = map[string]string{estargz.TOCJSONDigestAnnotation: b.TOCDigest.String(), estargz.StoreUncompressedSizeAnnotation: fmt.Sprint(len(l.tarB))}
+		}
+		if d(3) == 0 {
+			if l.desc.Annotations == nil {
+				l.desc.Annotations = map[string]string{}
+			}
+			l.desc.Annotations["org.example.note"] = "kept"
 		}
 		l.desc.Digest = digest.FromBytes(l.blob)
 		l.desc.Size = int64(len(l.blob))
